@@ -87,7 +87,7 @@ def term_of(c, p):
     ds = dv.coq_list(['(%d,%d,%s)' % (t['h0'], t['tok'], dv.coq_list([op_coq(o) for o in t['prog']])) for t in c['ths']])
     res = dv.coq_list([ls_common.zpairs(p['results'].get(t, [])) for t in range(n)])
     return '(FC %d %s %s %d%%nat %s %s %s %d %s %s %s)' % (
-        MODES[c['mode']], cfg, ds, c['budget'], dv.coq_list([str(x) for x in c['sched']]),
+        MODES[c['mode']], cfg, ds, ls_common.fuel_of(c['budget'], p['status']), dv.coq_list([str(x) for x in c['sched']]),
         ls_common.zpairs(p['steps']), res, p['status'], m.group(1), m.group(2), dv.coq_list(conts))
 
 
